@@ -160,6 +160,8 @@ def flag_set(prio=True, delete=True, new=True, unsafe=True, md=True, notnew=Fals
 def decorate(draw, node, flags, valueless=True, root=True):
     """Copy of `node` with flags drawn for every node; None scalars may become value-less nodes."""
     out = {k: v for k, v in node.items() if k not in tdoc.FLAG_KEYS and k != 'mdstyle'}
+    if node['t'] == 'alias':
+        return out          # an alias cannot carry a tag of its own
     if node['t'] == 'map':
         out['items'] = [[k, draw(decorate(v, flags, valueless, False))] for k, v in node['items']]
     elif node['t'] == 'seq':
